@@ -1,9 +1,9 @@
 //! LineSegment2 / LineSegment3: projected_point, distance_to_point, range conversions.
 //!
 //! `projected_point` is defined for the exactly degenerate segment (start == end): the code returns `start`,
-//! which is the only point of the segment, so that class is included. The code also treats
-//! 0 < |end-start|^2 <= T::epsilon() as degenerate; that band is outside the generated domain
-//! (squared lengths are 0 or >= 1/64).
+//! which is the only point of the segment, so that class is included. The base checks keep squared lengths
+//! 0 or >= 1/64; the `*-tiny-*` / `*-huge-*` instances multiply the whole arrangement exactly by 2^-k / 2^+k and
+//! compare with tolerances relative to the coordinate magnitude at that scale (floor 0 instead of 1).
 
 use crate::{lift_v, nonzero_count, pyth, sq_dist, Lift};
 use num_traits::Zero;
@@ -44,16 +44,22 @@ fn dir_with_rational_normal3<S: Dom>(t: &mut Tape, sc: S) -> ([S; 3], [S; 3]) {
 }
 
 macro_rules! segment_case {
-    ($fname:ident, $tiny:ident, $inner:ident, $N:expr, $Seg:ident, $mk:path, $un:path, $perp:ident, $ratn:ident) => {
+    ($fname:ident, $tiny:ident, $huge:ident, $inner:ident, $N:expr, $Seg:ident, $mk:path, $un:path, $perp:ident, $ratn:ident) => {
         fn $fname<S: Lift>(t: &mut Tape, cx: &mut Cx) -> CaseResult {
-            $inner::<S>(t, cx, false)
+            $inner::<S>(t, cx, 0)
         }
         /// The same arrangement scaled by 2^-k (exact in every domain): segments far shorter than
         /// sqrt(epsilon) are ordinary segments, only start == end is degenerate.
         fn $tiny<S: Lift>(t: &mut Tape, cx: &mut Cx) -> CaseResult {
-            $inner::<S>(t, cx, true)
+            $inner::<S>(t, cx, -1)
         }
-        fn $inner<S: Lift>(t: &mut Tape, cx: &mut Cx, tiny: bool) -> CaseResult {
+        /// The same arrangement scaled by 2^+k: a segment far from the unit scale in the other direction.
+        fn $huge<S: Lift>(t: &mut Tape, cx: &mut Cx) -> CaseResult {
+            $inner::<S>(t, cx, 1)
+        }
+        fn $inner<S: Lift>(t: &mut Tape, cx: &mut Cx, mode: i32) -> CaseResult {
+            let tiny = mode != 0; // "scaled": tolerances relative to the coordinate magnitude, no floor of 1
+            let fl = if tiny { 0.0 } else { 1.0 };
             const N: usize = $N;
             let mut start = [S::zero(); N];
             for i in 0..N {
@@ -122,7 +128,8 @@ macro_rules! segment_case {
                         4 => pick_q(t, &[(-1, 2), (-1, 1), (-2, 1), (-1, 8), (-1, 64), (-7, 3)]),
                         5 => pick_q(t, &[(3, 2), (2, 1), (3, 1), (9, 8), (65, 64), (10, 3)]),
                         8 => pick_q(t, &[(0, 1), (1, 1)]),
-                        _ => pick_q(t, &[(1, 256), (255, 256), (-1, 256), (257, 256), (1, 512), (511, 512)]),
+                        // next to an end, down to 2^-54 (below T::epsilon(): the clamp has no tolerance band)
+                        _ => pick_q(t, &[(1, 256), (255, 256), (-1, 256), (257, 256), (1, 512), (511, 512), (1, 1 << 54), ((1 << 54) - 1, 1 << 54), (-1, 1 << 54), ((1 << 54) + 1, 1 << 54)]),
                     };
                     let m: S = if kind == 7 || kind == 8 { S::zero() } else { S::small(t, 6) };
                     for i in 0..N {
@@ -135,7 +142,24 @@ macro_rules! segment_case {
                     }
                 }
             }
-            if tiny {
+            if mode > 0 {
+                // k: f32 up to 2^44, f64 up to 2^400 (|end-start|^2 and the dot products stay finite: coordinates
+                // <= 2^6 * 2^k, squared and summed < 2^(2k+16)), Rat up to 2^16 (i128 headroom)
+                let kmax = match S::NAME {
+                    "f32" => 44,
+                    "f64" => 400,
+                    _ => 16,
+                };
+                let k = if t.bool() { t.int(8, kmax.min(40)) } else { t.int(8, kmax) };
+                let sfac = vkit::regimes::pow2::<S>(k as i32);
+                for i in 0..N {
+                    start[i] = start[i] * sfac;
+                    end[i] = end[i] * sfac;
+                    p[i] = p[i] * sfac;
+                }
+                cx.label(if k >= 100 { "scaled by 2^100 or more" } else if k >= 27 { "scaled by 2^27..2^99" } else { "scaled by 2^8..2^26" });
+            }
+            if mode < 0 {
                 // k: f32 up to 2^-24 (len^2 ~ 1e-13 << eps_f32), f64 / Rat up to 2^-40 (len^2 ~ 1e-22 << 2^-52)
                 let kmax = if S::NAME == "f32" { 24 } else { 40 };
                 let k = t.int(8, kmax);
@@ -203,7 +227,7 @@ macro_rules! segment_case {
             let got = lift_v::<S, N>(&got_s);
             // (a) closed form: start + clamp01(((p-start).(end-start))/|end-start|^2) (end-start)
             for i in 0..N {
-                near!(cx, S, got[i], want[i], m, 32, "{}::projected_point[{}] vs clamped closed form ({}), got {:?} want {:?}", stringify!($Seg), i, class, got, want);
+                near_fl!(cx, S, fl, got[i], want[i], m, 32, "{}::projected_point[{}] vs clamped closed form ({}), got {:?} want {:?}", stringify!($Seg), i, class, got, want);
             }
             if degenerate {
                 check_eq!(cx, got_s, start, "{}::projected_point on a degenerate segment is start", stringify!($Seg));
@@ -220,23 +244,23 @@ macro_rules! segment_case {
                 ge_tol!(cx, S, s, zero, m / dv[ax].f().abs(), 64, "{}::projected_point parameter >= 0", stringify!($Seg));
                 ge_tol!(cx, S, one, s, m / dv[ax].f().abs(), 64, "{}::projected_point parameter <= 1", stringify!($Seg));
                 for i in 0..N {
-                    near!(cx, S, got[i], so[i] + s * dv[i], m * (1.0 + (dv[i].f() / dv[ax].f()).abs()), 64, "{}::projected_point is on the supporting line [{}]", stringify!($Seg), i);
+                    near_fl!(cx, S, fl, got[i], so[i] + s * dv[i], m * (1.0 + (dv[i].f() / dv[ax].f()).abs()), 64, "{}::projected_point is on the supporting line [{}]", stringify!($Seg), i);
                 }
             }
             // ... and no point of a 257-point sampling of the segment is nearer to p (squared distances)
             let got_d2 = sq_dist(&po, &got);
             for k in 0..=256i64 {
                 let q = rf::addv(&so, &rf::scale(&dv, <S::O as Dom>::q(k, 256)));
-                ge_tol!(cx, S, sq_dist(&po, &q), got_d2, 4.0 * m * m, 64, "{}: sampled point {}/256 is nearer to p than projected_point (got {:?})", stringify!($Seg), k, got);
+                ge_tol_fl!(cx, S, fl, sq_dist(&po, &q), got_d2, 4.0 * m * m, 64, "{}: sampled point {}/256 is nearer to p than projected_point (got {:?})", stringify!($Seg), k, got);
             }
             // (c) distance_to_point = |p - nearest point|; Rat: only when that distance is rational
             match S::sqrt_exact(want_d2) {
                 Some(wd) => {
                     cx.label("distance_to_point checked");
                     let gd = seg.distance_to_point($mk(&p)).lift();
-                    near!(cx, S, gd, wd, m, 32, "{}::distance_to_point vs |p - nearest| ({})", stringify!($Seg), class);
+                    near_fl!(cx, S, fl, gd, wd, m, 32, "{}::distance_to_point vs |p - nearest| ({})", stringify!($Seg), class);
                     // and it is the distance to vek's own projection
-                    near!(cx, S, gd * gd, got_d2, 4.0 * m * m, 64, "{}::distance_to_point^2 vs |p - projected_point(p)|^2", stringify!($Seg));
+                    near_fl!(cx, S, fl, gd * gd, got_d2, 4.0 * m * m, 64, "{}::distance_to_point^2 vs |p - projected_point(p)|^2", stringify!($Seg));
                 }
                 None => cx.label("distance irrational in Rat (distance_to_point not called)"),
             }
@@ -248,8 +272,8 @@ macro_rules! segment_case {
         }
     };
 }
-segment_case!(seg2, seg2_tiny, seg2_inner, 2, LineSegment2, vk::v2, vk::a2, perp2, dir_with_rational_normal2);
-segment_case!(seg3, seg3_tiny, seg3_inner, 3, LineSegment3, vk::v3, vk::a3, perp3, dir_with_rational_normal3);
+segment_case!(seg2, seg2_tiny, seg2_huge, seg2_inner, 2, LineSegment2, vk::v2, vk::a2, perp2, dir_with_rational_normal2);
+segment_case!(seg3, seg3_tiny, seg3_huge, seg3_inner, 3, LineSegment3, vk::v3, vk::a3, perp3, dir_with_rational_normal3);
 
 pub fn checks(checks: &mut Vec<Check>) {
     macro_rules! tape {
@@ -271,4 +295,11 @@ pub fn checks(checks: &mut Vec<Check>) {
     tape!("seg3-tiny-rat", tiny, 96, 10_000, 300_000, seg3_tiny::<Rat>);
     tape!("seg3-tiny-f64", tiny, 144, 10_000, 300_000, seg3_tiny::<f64>);
     tape!("seg3-tiny-f32", tiny, 144, 10_000, 300_000, seg3_tiny::<f32>);
+    let huge = "the same arrangements scaled exactly by 2^8 .. 2^400 (f32: 2^44, Rat: 2^16): projected_point / distance_to_point of huge segments, tolerance relative to the coordinate magnitude";
+    tape!("seg2-huge-rat", huge, 80, 2_000, 100_000, seg2_huge::<Rat>);
+    tape!("seg2-huge-f64", huge, 112, 10_000, 300_000, seg2_huge::<f64>);
+    tape!("seg2-huge-f32", huge, 112, 10_000, 300_000, seg2_huge::<f32>);
+    tape!("seg3-huge-rat", huge, 96, 2_000, 100_000, seg3_huge::<Rat>);
+    tape!("seg3-huge-f64", huge, 144, 10_000, 300_000, seg3_huge::<f64>);
+    tape!("seg3-huge-f32", huge, 144, 10_000, 300_000, seg3_huge::<f32>);
 }
